@@ -79,6 +79,44 @@ def main():
     c = DeterministicSimulator().py_simulate(itf2, T).py_get_result()
     if not np.allclose(b, c):
         return dict(reproduced=True, call='reused interface after set_parameter', observed=b[-1].tolist(), expected=c[-1].tolist())
+    # samplers are functions of the seeded stream only: the first draws after seeding do not depend on what was drawn before the seed call
+    from bioscrape.random import py_normal_rv, py_gamma_rv, py_uniform_rv
+    for warm in (0, 1, 2, 3):
+        for _ in range(warm):
+            py_normal_rv(0.0, 1.0)
+        py_seed_random(4242)
+        got = [py_normal_rv(1.0, 2.0), py_gamma_rv(2.0, 0.5), py_normal_rv(0.0, 1.0), py_uniform_rv()]
+        n += 1
+        if warm == 0:
+            ref_draws = got
+        elif got != ref_draws:
+            return dict(reproduced=True, call='py_seed_random(4242) then normal/gamma/normal/uniform draws, after %d earlier normal draw(s)' % warm, observed=got, expected=ref_draws)
+    # lineage models: features registered before and after an intermediate simulation (= an intermediate initialisation) must give the
+    # same model as registering all of them at once
+    from bioscrape.lineage import LineageModel, LineageVolumeSplitter, py_SimulateSingleCell
+
+    def lineage(history, kdiv, kvol):
+        M = LineageModel(species=['A'], reactions=[([], ['A'], 'massaction', {'k': 1.0})], initial_condition_dict={'A': 0})
+        vs = LineageVolumeSplitter(M, options={})
+        M.create_division_event('division', {}, 'massaction', {'k': kdiv, 'species': ''}, vs)
+        if history:
+            py_seed_random(5)
+            py_SimulateSingleCell(np.arange(0, 1, 0.1), Model=M, return_dataframes=False)
+        M.create_volume_event('linear volume', {'growth_rate': 0.1}, 'massaction', {'k': kvol, 'species': ''})
+        if history == 2:
+            py_seed_random(6)
+            py_SimulateSingleCell(np.arange(0, 1, 0.1), Model=M, return_dataframes=False)
+        py_seed_random(7)
+        r = py_SimulateSingleCell(np.arange(0, 4, 0.1), Model=M, return_dataframes=False)
+        return [len(r.py_get_timepoints()), r.py_get_divided(), float(np.array(r.py_get_volume())[-1]), np.array(r.py_get_result())[-1].tolist()]
+    for kdiv, kvol in ((0.0, 5.0), (0.3, 2.0)):
+        ref = lineage(0, kdiv, kvol)
+        for h in (1, 2):
+            n += 1
+            got = lineage(h, kdiv, kvol)
+            if got != ref:
+                return dict(reproduced=True, call='lineage model (division event rate %r, volume event rate %r) built with %d intermediate simulation(s) vs built at once' % (kdiv, kvol, h),
+                            observed=got, expected=ref)
     return dict(reproduced=False, evaluations=n)
 
 
